@@ -493,6 +493,24 @@ class Raises:
                     left = e.left if i == 0 else e.comparators[i - 1]
                     self._unordered(fi, e, left, c, frames, out)
             return
+        if isinstance(e, ast.BinOp) and isinstance(e.op, ast.Mod) and \
+                isinstance(e.left, ast.Constant) and \
+                isinstance(e.left.value, (str, bytes)):
+            # "..%s.." % x where x is a tuple built at run time: the tuple is
+            # taken as the argument list, and its length need not be the
+            # number of placeholders
+            r = e.right
+            if isinstance(r, ast.Name):
+                binds = [n for n in walk_own(fi.node)
+                         if isinstance(n, ast.Assign) and any(
+                             isinstance(t, ast.Name) and t.id == r.id
+                             for t in n.targets)]
+                if len(binds) == 1:
+                    r = binds[0].value
+            if isinstance(r, ast.Call) and isinstance(r.func, ast.Name) and \
+                    r.func.id == 'tuple' and r.func.id not in self.r.env(fi):
+                self._op(fi, e, 'format with a tuple of unknown length',
+                         'TypeError', frames, out)
         if isinstance(e, ast.BinOp) and isinstance(
                 e.op, (ast.Add, ast.Sub, ast.Mult, ast.FloorDiv, ast.Mod)) \
                 and not isinstance(e.left, ast.Constant):
